@@ -26,10 +26,24 @@ type grant struct {
 	Start time.Duration `json:"start_offset"` // relative to baseTime
 	Exp   time.Duration `json:"exp_offset"`
 	Via   string        `json:"via"` // func | wire
+	// absolute times (Unix seconds) for instants a Duration offset cannot reach
+	StartUnix int64 `json:"start_unix,omitempty"`
+	ExpUnix   int64 `json:"exp_unix,omitempty"`
 }
 
-func (g grant) start() time.Time { return baseTime.Add(g.Start) }
-func (g grant) exp() time.Time   { return baseTime.Add(g.Exp) }
+func (g grant) start() time.Time {
+	if g.StartUnix != 0 {
+		return time.Unix(g.StartUnix, 0).UTC()
+	}
+	return baseTime.Add(g.Start)
+}
+
+func (g grant) exp() time.Time {
+	if g.ExpUnix != 0 {
+		return time.Unix(g.ExpUnix, 0).UTC()
+	}
+	return baseTime.Add(g.Exp)
+}
 
 type ledger map[string][]grant // user|key-index -> live (unconsumed) grants
 
@@ -434,7 +448,7 @@ func directedC07() []directedCase {
 		{"same-command-twice", []grant{cmdGrant("true", -h, h)}, []step{{Op: "exec", Cmd: "true"}, {Op: "exec", Cmd: "true"}}},
 		{"other-command", []grant{cmdGrant("true", -h, h)}, []step{{Op: "exec", Cmd: "echo hi"}, {Op: "exec", Cmd: "true "}, {Op: "exec", Cmd: "TRUE"}, {Op: "exec", Cmd: ""}}},
 		{"after-expiry", []grant{cmdGrant("true", -h, h)}, []step{{Op: "clock", Dur: 2 * h}, {Op: "exec", Cmd: "true"}}},
-		{"before-start", []grant{cmdGrant("true", h, 2 * h)}, []step{{Op: "exec", Cmd: "true"}, {Op: "clock", Dur: 90 * time.Minute}, {Op: "exec", Cmd: "true"}}},
+		{"before-start", []grant{cmdGrant("true", h, 2*h)}, []step{{Op: "exec", Cmd: "true"}, {Op: "clock", Dur: 90 * time.Minute}, {Op: "exec", Cmd: "true"}}},
 		{"shell-with-command-grant", []grant{cmdGrant("true", -h, h)}, []step{{Op: "exec", Cmd: "", Pty: true}}},
 		{"command-with-shell-grant", []grant{sh}, []step{{Op: "exec", Cmd: "true"}, {Op: "exec", Cmd: "", Pty: true}}},
 		{"forward-with-command-grant", []grant{cmdGrant("true", -h, h)}, []step{{Op: "pf-local", Unix: true}, {Op: "pf-data"}, {Op: "pf-remote", Unix: true}, {Op: "pf-local"}}},
@@ -450,7 +464,11 @@ func directedC07() []directedCase {
 		{"shell-after-expiry", []grant{sh}, []step{{Op: "clock", Dur: 2 * h}, {Op: "exec", Cmd: "", Pty: true}}},
 		{"wire-grant-before-start", []grant{{User: "alice", Key: 0, Type: byte(authgrants.Command), Cmd: "true", Start: h, Exp: 2 * h, Via: "wire"}}, []step{{Op: "exec", Cmd: "true"}}},
 		{"long-command-and-its-extensions", []grant{cmdGrant(long255, -h, h)}, []step{{Op: "exec", Cmd: long255 + "y"}, {Op: "exec", Cmd: long255 + "\necho appended"}, {Op: "exec", Cmd: long255[:254]}, {Op: "exec", Cmd: long255}}},
-		{"grant-from-the-far-future", []grant{cmdGrant("true", 290 * 365 * 24 * h, 291 * 365 * 24 * h)}, []step{{Op: "exec", Cmd: "true"}}},
+		{"grant-for-the-26th-century", []grant{{User: "alice", Key: 0, Type: byte(authgrants.Command), Cmd: "true", Via: "func",
+			StartUnix: time.Date(2560, 1, 1, 0, 0, 0, 0, time.UTC).Unix(), ExpUnix: time.Date(2660, 1, 1, 0, 0, 0, 0, time.UTC).Unix()}}, []step{{Op: "exec", Cmd: "true"}}},
+		{"shell-grant-for-the-26th-century", []grant{{User: "alice", Key: 0, Type: byte(authgrants.Shell), Via: "func",
+			StartUnix: time.Date(2570, 6, 1, 0, 0, 0, 0, time.UTC).Unix(), ExpUnix: time.Date(2650, 1, 1, 0, 0, 0, 0, time.UTC).Unix()}}, []step{{Op: "exec", Cmd: "", Pty: true}}},
+		{"grant-from-the-far-future", []grant{cmdGrant("true", 290*365*24*h, 291*365*24*h)}, []step{{Op: "exec", Cmd: "true"}}},
 		{"other-tubes", []grant{cmdGrant("true", -h, h)}, []step{{Op: "tube", TubeT: 7}, {Op: "tube", TubeT: 99}, {Op: "tube", TubeT: 3}, {Op: "exec", Cmd: "true"}}},
 	}
 }
